@@ -198,6 +198,10 @@ def free_energy_graph(
                 (-1, -1, -1),
                 (1, -1, -1),
                 (-1, 1, 1),
+                (1, 1, -1),
+                (-1, -1, 1),
+                (1, -1, 1),
+                (-1, 1, -1),
             ]
         )
         movements = np.vstack((movements, diagonal_movements))
